@@ -7,6 +7,8 @@ def tasks(run):
     out = [('partitions', (run.seed + i,)) for i in range(n)]
     out += [('program', ('T_blocks', run.seed % 1000 + i, {})) for i in range(4)]
     out += [('resolve', ('T_blocks', run.seed % 1000 + i, e)) for i in range(2) for e in ('add_metric', 'new_iterate')]
+    out += [('partition_resolve', (run.seed % 1000 + i,)) for i in range(3)]
+    out += [('partition_dropped_handle', (i,)) for i in range(2)]
     return out
 
 
